@@ -397,6 +397,52 @@ func selfTest(c *hx.Ctx) {
 	if len(v) != 0 || keys(o) != "2 0 []" {
 		fail("compare-and-swap spin lock: outcomes %q verdicts %q, want x=2 and no verdict", keys(o), keys(v))
 	}
+	// 7d. sync.Map and sync.Pool shims: a value published through the map is ordered after what was
+	// written before the Store; the pool is a LIFO stack that starts empty in every execution
+	mapPub := func(st *selfState) {
+		var m vsync.Map
+		spawn2(st,
+			func() { vsched.W(unsafePtr(&st.racy), 900031); st.racy = 6; m.Store("k", 1) },
+			func() {
+				if _, ok := m.Load("k"); ok {
+					st.x = vsched.R(&st.racy, 900032)
+				}
+			})
+	}
+	o, v, n, _ = selfExplore("syncmap-publish", mapPub, 2, false, true, true)
+	if n != 0 || len(v) != 0 || keys(o) != "0 0 [] | 6 0 []" {
+		fail("data published through a sync.Map: %d race pairs, outcomes %q verdicts %q, want no race and x in {0,6}", n, keys(o), keys(v))
+	}
+	poolLIFO := func(st *selfState) {
+		p := vsync.Pool{New: func() interface{} { return 0 }}
+		st.x = p.Get().(int) // empty at the start of every execution: New
+		p.Put(7)
+		p.Put(8)
+		st.y = p.Get().(int)*10 + p.Get().(int)
+	}
+	o, v, _, _ = selfExplore("syncpool", poolLIFO, 0, false, true, false)
+	if len(v) != 0 || keys(o) != "0 87 []" {
+		fail("pool shim: outcomes %q verdicts %q, want New's value first and then 8, 7", keys(o), keys(v))
+	}
+	// 7e. TryLock: fails exactly when the other thread is inside
+	tryBody := func(st *selfState) {
+		f := func() {
+			if st.mu.TryLock() {
+				st.x++
+				vsched.Obs()
+				st.mu.Unlock()
+			} else {
+				st.m2.Lock()
+				st.y++
+				st.m2.Unlock()
+			}
+		}
+		spawn2(st, f, f)
+	}
+	o, v, _, _ = selfExplore("trylock", tryBody, 2, false, true, false)
+	if len(v) != 0 || keys(o) != "1 1 [] | 2 0 []" {
+		fail("two TryLock callers: outcomes %q verdicts %q, want {x=2} and {x=1,y=1}", keys(o), keys(v))
+	}
 	// 8. condition variable and Once shims
 	condOK := func(st *selfState) {
 		cv := vsync.NewCond(&st.mu)
@@ -469,8 +515,8 @@ func selfTest(c *hx.Ctx) {
 		}
 	}
 	c.Res.Execs += ep + en
-	c.Res.AddExtra("cases", 29)
-	c.Res.Sample("29 known-answer scenarios: atomics (publication / CAS spin lock), DeepClone backing-array sharing, RWMutex writer preference (recursive read lock deadlock / plain), slice-element race / no race, condition variable (flag under lock / lost signal), Once, channel ping / no sender / full buffer / select / lost wake-up, lost update (bounds 0/1, delay 1), locked update, AB-BA deadlock, WaitGroup negative / stuck, fair spin loop, endless spin loop, race monitor positive / negative, pruning vs no pruning")
+	c.Res.AddExtra("cases", 32)
+	c.Res.Sample("32 known-answer scenarios: TryLock, sync.Map publication, sync.Pool shim, atomics (publication / CAS spin lock), DeepClone backing-array sharing, RWMutex writer preference (recursive read lock deadlock / plain), slice-element race / no race, condition variable (flag under lock / lost signal), Once, channel ping / no sender / full buffer / select / lost wake-up, lost update (bounds 0/1, delay 1), locked update, AB-BA deadlock, WaitGroup negative / stuck, fair spin loop, endless spin loop, race monitor positive / negative, pruning vs no pruning")
 }
 
 func init() {
